@@ -726,12 +726,8 @@ fn check_composition(
 ) -> Result<(), CompilerError> {
     trace!("Composition check between previous {:?} and current {:?}", previous, current);
     match (previous, current) {
-        (SecondaryDefinition::Value, SecondaryDefinition::Value) if !check_for_list => composition_error(previous, current, &token),
-        (SecondaryDefinition::None, SecondaryDefinition::EndGrouping)
-        | (SecondaryDefinition::None, SecondaryDefinition::BinaryLeftToRight)
-        | (SecondaryDefinition::None, SecondaryDefinition::UnarySuffix)
-        | (SecondaryDefinition::Subexpression, SecondaryDefinition::BinaryLeftToRight)
-        | (SecondaryDefinition::Subexpression, SecondaryDefinition::UnarySuffix)
+        // two operands next to each other, only a list when white space separates them
+        (SecondaryDefinition::Value, SecondaryDefinition::Value)
         | (SecondaryDefinition::Value, SecondaryDefinition::Identifier)
         | (SecondaryDefinition::Value, SecondaryDefinition::StartGrouping)
         | (SecondaryDefinition::Value, SecondaryDefinition::UnaryPrefix)
@@ -739,13 +735,26 @@ fn check_composition(
         | (SecondaryDefinition::Identifier, SecondaryDefinition::Identifier)
         | (SecondaryDefinition::Identifier, SecondaryDefinition::StartGrouping)
         | (SecondaryDefinition::Identifier, SecondaryDefinition::UnaryPrefix)
-        | (SecondaryDefinition::StartGrouping, SecondaryDefinition::None)
-        | (SecondaryDefinition::StartGrouping, SecondaryDefinition::BinaryLeftToRight)
-        | (SecondaryDefinition::StartGrouping, SecondaryDefinition::UnarySuffix)
         | (SecondaryDefinition::EndGrouping, SecondaryDefinition::Value)
         | (SecondaryDefinition::EndGrouping, SecondaryDefinition::Identifier)
         | (SecondaryDefinition::EndGrouping, SecondaryDefinition::StartGrouping)
         | (SecondaryDefinition::EndGrouping, SecondaryDefinition::UnaryPrefix)
+        | (SecondaryDefinition::UnarySuffix, SecondaryDefinition::Value)
+        | (SecondaryDefinition::UnarySuffix, SecondaryDefinition::Identifier)
+        | (SecondaryDefinition::UnarySuffix, SecondaryDefinition::StartGrouping)
+        | (SecondaryDefinition::UnarySuffix, SecondaryDefinition::UnaryPrefix)
+            if !check_for_list =>
+        {
+            composition_error(previous, current, &token)
+        }
+        (SecondaryDefinition::None, SecondaryDefinition::EndGrouping)
+        | (SecondaryDefinition::None, SecondaryDefinition::BinaryLeftToRight)
+        | (SecondaryDefinition::None, SecondaryDefinition::UnarySuffix)
+        | (SecondaryDefinition::Subexpression, SecondaryDefinition::BinaryLeftToRight)
+        | (SecondaryDefinition::Subexpression, SecondaryDefinition::UnarySuffix)
+        | (SecondaryDefinition::StartGrouping, SecondaryDefinition::None)
+        | (SecondaryDefinition::StartGrouping, SecondaryDefinition::BinaryLeftToRight)
+        | (SecondaryDefinition::StartGrouping, SecondaryDefinition::UnarySuffix)
         | (SecondaryDefinition::StartSideEffect, SecondaryDefinition::BinaryLeftToRight)
         | (SecondaryDefinition::StartSideEffect, SecondaryDefinition::UnarySuffix)
         | (SecondaryDefinition::BinaryLeftToRight, SecondaryDefinition::None)
@@ -760,11 +769,7 @@ fn check_composition(
         | (SecondaryDefinition::UnaryPrefix, SecondaryDefinition::Subexpression)
         | (SecondaryDefinition::UnaryPrefix, SecondaryDefinition::EndGrouping)
         | (SecondaryDefinition::UnaryPrefix, SecondaryDefinition::EndSideEffect)
-        | (SecondaryDefinition::UnaryPrefix, SecondaryDefinition::BinaryLeftToRight)
-        | (SecondaryDefinition::UnarySuffix, SecondaryDefinition::Value)
-        | (SecondaryDefinition::UnarySuffix, SecondaryDefinition::Identifier)
-        | (SecondaryDefinition::UnarySuffix, SecondaryDefinition::StartGrouping)
-        | (SecondaryDefinition::UnarySuffix, SecondaryDefinition::UnaryPrefix) => composition_error(previous, current, &token),
+        | (SecondaryDefinition::UnaryPrefix, SecondaryDefinition::BinaryLeftToRight) => composition_error(previous, current, &token),
         _ => Ok(()),
     }
 }
@@ -881,7 +886,10 @@ pub fn parse(lex_tokens: &Vec<LexerToken>) -> Result<ParseResult, CompilerError>
         check_composition(previous_second_def, secondary_definition, check_for_list, token)?;
 
         // done with previous, can update now
-        previous_second_def = secondary_definition;
+        // white space and annotations are not part of the composition, what comes after them still follows the last real token
+        if secondary_definition != SecondaryDefinition::Whitespace && secondary_definition != SecondaryDefinition::Annotation {
+            previous_second_def = secondary_definition;
+        }
 
         let (definition, parent, left, right) = match secondary_definition {
             SecondaryDefinition::None => implementation_error("Secondary definition of none shouldn't reach check.".to_string())?,
